@@ -1,5 +1,7 @@
 use std::fmt::Display;
 
+#[cfg(feature = "verif")]
+use crate::verif::flume_shim as flume;
 use flume::{bounded, Receiver, RecvError, Sender, TryRecvError};
 
 use crate::block::{BlockStructure, OperatorKind, OperatorStructure, Replication};
